@@ -12,7 +12,8 @@ LEVEL = ("Static structural conditions of storage fidelity: variant coverage of 
          " Added: the warm-up -> sampling switch of record_sample dominates every read of the draw's values (R8); no backend reaches around a BufWriter (R9)."
          " Added (round 4): per-dimension event counts of several chains are combined component-wise, never by ordering tuples (R12 = C15-R6 analysis)."
          " Added (round 5): event counts reported by a backend with a phase flag depend on that flag (R13; decided F14); ArrowBuilder::append_value never appends a null, the ndarray draw axis is exactly num_tune + num_draws long (R14). A backend that names statistic dimensions from Settings::stat_dims_all takes their sizes from Settings::stat_dim_sizes (R15, sibling agreement; decided F17)."
-         " Added (round 6): a builder setter of a storage configuration returns self with the named field set, never a rebuilt configuration (R16); the chunk grid of the Zarr arrays and the buffer length of the chains are one expression (R17 = C15-R12). Every chunk shape handed to zarrs' ArrayBuilder passes through max(1), so zero-length coordinates / dimensions are stored by both Zarr backends (R18; decided F18).")
+         " Added (round 6): a builder setter of a storage configuration returns self with the named field set, never a rebuilt configuration (R16); the chunk grid of the Zarr arrays and the buffer length of the chains are one expression (R17 = C15-R12). Every chunk shape handed to zarrs' ArrayBuilder passes through max(1), so zero-length coordinates / dimensions are stored by both Zarr backends (R18; decided F18)."
+         " Added (round 7): the extent of the warmup event arrays is read from SampleBuffer::total_pushed() before any reset, in both Zarr storages (R19).")
 EXPLANATION = ("COVER analysis over HIR match arms, slice-based lane labels in new_trace, ITER classification of HashMap iterations, "
                "EFF read/write inventory of StorageConfig fields, SCHEMA flattening of the six Stats types.")
 TRUSTED = ["rustc nightly HIR/MIR", "nutsfacts extractor", "rules/c14.py, rules/schema.py"]
